@@ -102,6 +102,21 @@ Definition root_begin (s : str) : nat :=
   Nat.min (misc (S (List.length s)) (skipn (root_start s) s) (root_start s) (List.length s)) (List.length s).
 Definition root_stop (s : str) : nat := tag_end (skipn (root_begin s) s) (root_begin s) None.
 
+(* __isOpenDocumentPart: re.match('<([^ \t\r\n:/>]*:)?document(-content|-styles|-meta|-settings)?[ \t\r\n/>]') on the root's start
+   tag - is the part one of OpenDocument's (whatever prefix its producer chose), or of another vocabulary (a MathML formula)? *)
+Definition name_sep (c : cp) : bool := is_xws c || (c =? 58) || (c =? 47) || (c =? 62).
+Fixpoint drop_run (s : str) : str := match s with c :: r => if name_sep c then s else drop_run r | [] => [] end.
+Definition tag_term (c : cp) : bool := is_xws c || (c =? 47) || (c =? 62).
+Definition sDOCUMENT : str := s2l "document".
+Definition doc_suffixes : list str := map s2l ["-content"; "-styles"; "-meta"; "-settings"; ""]%string.
+Definition local_ok (l : str) : bool :=
+  existsb (fun suf => match strip_prefix (sDOCUMENT ++ suf) l with Some (c :: _) => tag_term c | _ => false end) doc_suffixes.
+Definition is_odf_part (s : str) : bool :=
+  match skipn (root_begin s) (firstn (S (root_stop s)) s) with
+  | 60 :: r => local_ok r || match drop_run r with 58 :: r2 => local_ok r2 | _ => false end
+  | _ => false
+  end.
+
 (* re.search('[ \t\r\n]xmlns:'): the first white-space character that is followed by the needle, at or after position i *)
 Fixpoint find_ws_then (needle s : str) (i : nat) : option nat :=
   match s with
